@@ -63,7 +63,7 @@ def gen_history(rng, tier):
         h['produce'].append([round(t, 3), rng.randrange(nparts), int(rng.random() < h['hole_rate'])])
     if rng.random() < 0.25:
         h['add_partition_at'] = round(rng.choice([0.5, 1.5, 3.0]), 2)
-        h['npartitions_arg'] = False
+        h['npartitions_arg'] = rng.random() < 0.4      # the caller may still state the original number of partitions
         for _ in range(rng.randrange(1, 4)):
             h['produce'].append([h['add_partition_at'] + rng.choice([0.1, 1.0, 2.0]), nparts, int(rng.random() < h['hole_rate'])])
         h['produce'].sort()
